@@ -89,3 +89,16 @@ Example ex_rf_key : In "g" ["f"; "e"; "g"] /\ exists f, reader_of "g" gen_fortra
 Proof. split; [cbn; tauto|]. eexists; reflexivity. Qed.
 Example ex_rf_blank : exists f, reader_of "d" gen_fortran_read_function = Some f /\ strip (s2l "    ") = [] /\ In "*" (s2l " ****").
 Proof. eexists; repeat split; try reflexivity. cbn. tauto. Qed.
+
+(** the caller's blank value matters on blank fields only: on every non-blank text the readers
+    with any two blank values, and the partial applications (blank value None), all agree *)
+Lemma bv_only_blank s bv bv' : strip s <> [] ->
+  gen_fortran_float (VStr s) bv = gen_fortran_float (VStr s) bv' /\
+  gen_fortran_int (VStr s) bv = gen_fortran_int (VStr s) bv' /\
+  gen_fortran_read_float (VStr s) = gen_fortran_float (VStr s) bv /\
+  gen_fortran_read_int (VStr s) = gen_fortran_int (VStr s) bv.
+Proof.
+  intro NE. rewrite read_float_is, read_int_is, !(ff_nf s _ NE), !(fi_nf s _ NE). repeat split; reflexivity.
+Qed.
+Example ex_bv_only_blank : strip (s2l " 1 2 ") <> [].
+Proof. vm_compute. discriminate. Qed.
